@@ -84,7 +84,7 @@ func mutateBin(t *rapid.T, doc []byte) []byte {
 	return b
 }
 
-var argPieces = []string{"a", "b", "k", "list", "", ".", "..", "[", "]", "[0]", "[1]", "[-1]", "[99999999999]", "[2147483647]", "[2147483648]", "[4294967295]", "[4294967296]", "[9223372036854775806]", "[9223372036854775807]", "[9223372036854775808]", "[18446744073709551615]", "[18446744073709551616]", "[+1]", "[01]", "[1e3]", "[0x1]", "[x]", "[]", "*", ":", "::", "!", "!:", ":*", ":x", "x:", "-", "#text", " ", "a.b", "a[0", "0]", "|", ":bool", ":num", ":string", "true:bool", "1e999:num", "\x00", "é"}
+var argPieces = []string{"a", "b", "k", "list", "", ".", "..", "[", "]", "[0]", "[1]", "[-1]", "[99999999999]", "[2147483647]", "[2147483648]", "[4294967295]", "[4294967296]", "[9223372036854775806]", "[9223372036854775807]", "[9223372036854775808]", "[18446744073709551615]", "[18446744073709551616]", "[+1]", "[01]", "[1e3]", "[0x1]", "[x]", "[]", "*", ":", "::", "!", "!:", ":*", ":x", "x:", "-", "#text", " ", "a.b", "a[0", "0]", "|", ":bool", ":num", ":string", "true:bool", "1e999:num", "\x00", "é", "|1", "|*", "!|x", "|1|num", "1", "a|", "|", "::1", "!::*"}
 
 func genArgString(t *rapid.T, label string) string {
 	n := rapid.IntRange(0, 5).Draw(t, label+"n")
@@ -126,7 +126,7 @@ func genC15(t *rapid.T) CaseC15 {
 			}
 			c.Pair = c.Path + ":n.m"
 		}
-		c.Option = rapid.SampledFrom([]string{"", "", "", "attr-prefix-long", "no-prefix", "dot-notation", "separator", "array-size"}).Draw(t, "qoption")
+		c.Option = rapid.SampledFrom([]string{"", "", "", "attr-prefix-long", "no-prefix", "dot-notation", "separator", "separator-bar", "array-size"}).Draw(t, "qoption")
 		return c
 	}
 	c.Kind = rapid.SampledFrom([]string{"xml", "xml", "xml", "json", "gob"}).Draw(t, "kind")
@@ -254,6 +254,8 @@ func applyDecoderOption(opt string) {
 		mxj.LeafUseDotNotation(true)
 	case "separator":
 		mxj.SetFieldSeparator("::")
+	case "separator-bar":
+		mxj.SetFieldSeparator("|")
 	case "array-size":
 		mxj.SetArraySize(33)
 	case "cast-int":
